@@ -41,6 +41,10 @@ pub open spec fn enc_uint(v: u64) -> Seq<u8> {
 }
 pub open spec fn enc_bytes(b: Seq<u8>) -> Seq<u8> { enc_uint(b.len() as u64) + b }
 
+/// `a` is a prefix of `b` (opaque: the index-wise definition is only revealed inside the lemmas below)
+#[verifier::opaque]
+pub open spec fn pfx(a: Seq<u8>, b: Seq<u8>) -> bool { a.is_prefix_of(b) }
+
 pub trait CompactEncoding<Decode = Self>: Sized {
     /// the bytes this value is encoded to
     spec fn spec_enc(&self) -> Seq<u8>;
@@ -68,10 +72,10 @@ pub trait CompactEncoding<Decode = Self>: Sized {
     fn decode(buffer: &[u8]) -> (r: Result<(Decode, &[u8]), EncodingError>)
         ensures
             // round trip: whatever was encoded at the front of the buffer comes back, with the rest
-            forall|d: Decode| Self::dec_ok(d) && (#[trigger] Self::dec_enc(d)).is_prefix_of(buffer@) ==>
+            forall|d: Decode| Self::dec_ok(d) && #[trigger] pfx(Self::dec_enc(d), buffer@) ==>
                 r is Ok && Self::eqv(r->Ok_0.0, d) && r->Ok_0.1@ == buffer@.skip(Self::dec_enc(d).len() as int),
             // truncation: a strict prefix of a valid encoding is an error
-            forall|d: Decode| Self::dec_ok(d) && buffer@.len() < (#[trigger] Self::dec_enc(d)).len() && buffer@.is_prefix_of(Self::dec_enc(d)) ==> r is Err,
+            forall|d: Decode| Self::dec_ok(d) && buffer@.len() < Self::dec_enc(d).len() && #[trigger] pfx(buffer@, Self::dec_enc(d)) ==> r is Err,
             // whatever is returned is a suffix of the input
             r is Ok ==> r->Ok_0.1@.len() <= buffer@.len()
                 && r->Ok_0.1@ == buffer@.skip(buffer@.len() - r->Ok_0.1@.len());
@@ -155,6 +159,26 @@ impl<'b, const N: usize> CompactEncoding<[u8; N]> for &'b [u8; N] {
     #[verifier::external_body] fn decode(buffer: &[u8]) -> (r: Result<([u8; N], &[u8]), EncodingError>) { unimplemented!() }
 }
 
+// strings: UTF-8 byte reasoning is outside Verus; the encoding of a list of strings is an
+// uninterpreted byte string (in this crate the lists are always empty: user_data / reorgs)
+pub uninterp spec fn enc_strings(v: Seq<String>) -> Seq<u8>;
+impl CompactEncoding for Vec<String> {
+    open spec fn spec_enc(&self) -> Seq<u8> { Self::dec_enc(*self) }
+    open spec fn dec_enc(d: Vec<String>) -> Seq<u8> { enc_strings(d@) }
+    open spec fn enc_ok(&self) -> bool { true }
+    open spec fn dec_ok(d: Vec<String>) -> bool { true }
+    open spec fn eqv(a: Vec<String>, b: Vec<String>) -> bool { a@ == b@ }
+    #[verifier::external_body] fn encoded_size(&self) -> (r: Result<usize, EncodingError>)
+        ensures r is Ok ==> r->Ok_0 <= SIZE_BOUND   // assumption A-size
+    { unimplemented!() }
+    #[verifier::external_body] fn encode<'a>(&self, buffer: &'a mut [u8]) -> (r: Result<&'a mut [u8], EncodingError>) { unimplemented!() }
+    #[verifier::external_body] fn decode(buffer: &[u8]) -> (r: Result<(Vec<String>, &[u8]), EncodingError>) { unimplemented!() }
+}
+/// an empty list of strings is the single byte 0 (length varint)
+#[verifier::external_body]
+pub broadcast proof fn axiom_enc_strings_empty(v: Seq<String>)
+    ensures v.len() == 0 ==> #[trigger] enc_strings(v) == seq![0u8] {}
+
 // ---------------- vectors of encodable things ----------------
 pub open spec fn enc_seq<T: CompactEncoding>(s: Seq<T>) -> Seq<u8>
     decreases s.len()
@@ -204,6 +228,23 @@ pub fn write_array<'a, const N: usize>(source: &[u8; N], buffer: &'a mut [u8]) -
         r is Ok ==> (*r->Ok_0)@ == old(buffer)@.skip(N as int) && final(buffer)@ == source@ + (*final(r->Ok_0))@
 { unimplemented!() }
 #[verifier::external_body]
+pub fn take_array_mut<const N: usize>(buffer: &mut [u8]) -> (r: Result<(&mut [u8; N], &mut [u8]), EncodingError>)
+    ensures (old(buffer)@.len() >= N) == (r is Ok),
+        r is Ok ==> (*r->Ok_0.0)@ == old(buffer)@.subrange(0, N as int) && (*r->Ok_0.1)@ == old(buffer)@.skip(N as int)
+            && final(buffer)@ == (*final(r->Ok_0.0))@ + (*final(r->Ok_0.1))@
+{ unimplemented!() }
+#[verifier::external_body]
+pub fn get_slices_mut_checked(buffer: &mut [u8], mid: usize) -> (r: Result<(&mut [u8], &mut [u8]), EncodingError>)
+    ensures (old(buffer)@.len() >= mid) == (r is Ok),
+        r is Ok ==> (*r->Ok_0.0)@ == old(buffer)@.subrange(0, mid as int) && (*r->Ok_0.1)@ == old(buffer)@.skip(mid as int)
+            && final(buffer)@ == (*final(r->Ok_0.0))@ + (*final(r->Ok_0.1))@
+{ unimplemented!() }
+#[verifier::external_body]
+pub fn as_array_mut<const N: usize>(buffer: &mut [u8]) -> (r: Result<&mut [u8; N], EncodingError>)
+    ensures (old(buffer)@.len() == N) == (r is Ok),
+        r is Ok ==> (*r->Ok_0)@ == old(buffer)@ && final(buffer)@ == (*final(r->Ok_0))@
+{ unimplemented!() }
+#[verifier::external_body]
 pub fn write_slice<'a>(source: &[u8], buffer: &'a mut [u8]) -> (r: Result<&'a mut [u8], EncodingError>)
     ensures (old(buffer)@.len() >= source@.len()) == (r is Ok),
         r is Ok ==> (*r->Ok_0)@ == old(buffer)@.skip(source@.len() as int) && final(buffer)@ == source@ + (*final(r->Ok_0))@
@@ -221,9 +262,9 @@ pub fn get_slices_checked(buffer: &[u8], mid: usize) -> (r: Result<(&[u8], &[u8]
 #[verifier::external_body]
 pub fn decode_usize(buffer: &[u8]) -> (r: Result<(usize, &[u8]), EncodingError>)
     ensures
-        forall|d: usize| (#[trigger] usize::dec_enc(d)).is_prefix_of(buffer@) ==>
+        forall|d: usize| #[trigger] pfx(usize::dec_enc(d), buffer@) ==>
             r is Ok && r->Ok_0.0 == d && r->Ok_0.1@ == buffer@.skip(usize::dec_enc(d).len() as int),
-        forall|d: usize| buffer@.len() < (#[trigger] usize::dec_enc(d)).len() && buffer@.is_prefix_of(usize::dec_enc(d)) ==> r is Err,
+        forall|d: usize| buffer@.len() < usize::dec_enc(d).len() && #[trigger] pfx(buffer@, usize::dec_enc(d)) ==> r is Err,
         r is Ok ==> r->Ok_0.1@.len() <= buffer@.len() && r->Ok_0.1@ == buffer@.skip(buffer@.len() - r->Ok_0.1@.len())
 { unimplemented!() }
 
@@ -289,9 +330,10 @@ pub proof fn lemma_le_bytes_inj(a: u64, b: u64, n: nat)
 /// the varint format is prefix-free: a buffer starts with the encoding of at most one value
 /// (this is what makes the assumed `decode` contracts of the primitives consistent)
 pub proof fn lemma_enc_uint_prefix_free(a: u64, b: u64, buf: Seq<u8>)
-    requires enc_uint(a).is_prefix_of(buf), enc_uint(b).is_prefix_of(buf)
+    requires pfx(enc_uint(a), buf), pfx(enc_uint(b), buf)
     ensures a == b
 {
+    reveal(pfx);
     lemma_enc_uint_len(a); lemma_enc_uint_len(b);
     let ea = enc_uint(a); let eb = enc_uint(b);
     assert(ea[0] == buf[0] && eb[0] == buf[0]);
@@ -311,10 +353,12 @@ pub proof fn lemma_enc_uint_prefix_free(a: u64, b: u64, buf: Seq<u8>)
 
 /// (a + b) prefix of buf  ==>  a prefix of buf, b prefix of the rest
 pub broadcast proof fn lemma_prefix_concat(a: Seq<u8>, b: Seq<u8>, buf: Seq<u8>)
-    requires #[trigger] (a + b).is_prefix_of(buf)
-    ensures a.is_prefix_of(buf), b.is_prefix_of(buf.skip(a.len() as int)),
-        buf.skip((a + b).len() as int) == buf.skip(a.len() as int).skip(b.len() as int)
+    requires #[trigger] pfx(a + b, buf)
+    ensures pfx(a, buf), pfx(b, buf.skip(a.len() as int)), a.len() + b.len() <= buf.len(),
+        buf.skip((a + b).len() as int) == buf.skip(a.len() as int).skip(b.len() as int),
+        a.len() > 0 ==> buf[0] == a[0]
 {
+    reveal(pfx);
     assert(a =~= buf.subrange(0, a.len() as int)) by {
         assert forall|i: int| 0 <= i < a.len() implies a[i] == buf[i] by { assert((a + b)[i] == buf[i]); }
     }
@@ -322,16 +366,19 @@ pub broadcast proof fn lemma_prefix_concat(a: Seq<u8>, b: Seq<u8>, buf: Seq<u8>)
         assert forall|i: int| 0 <= i < b.len() implies b[i] == buf.skip(a.len() as int)[i] by { assert((a + b)[a.len() + i] == buf[a.len() + i]); }
     }
     assert(buf.skip((a + b).len() as int) =~= buf.skip(a.len() as int).skip(b.len() as int));
+    if a.len() > 0 { assert((a + b)[0] == buf[0]); }
 }
 
 /// buf strict prefix of (a + b): either buf is a strict prefix of a, or a is a prefix of buf and the rest is a strict prefix of b
 pub broadcast proof fn lemma_strict_prefix_concat(a: Seq<u8>, b: Seq<u8>, buf: Seq<u8>)
-    requires buf.len() < (a + b).len(), #[trigger] buf.is_prefix_of(a + b)
+    requires buf.len() < (a + b).len(), #[trigger] pfx(buf, a + b)
     ensures
-        buf.len() < a.len() ==> buf.is_prefix_of(a),
-        buf.len() >= a.len() ==> a.is_prefix_of(buf) && buf.skip(a.len() as int).len() < b.len()
-            && buf.skip(a.len() as int).is_prefix_of(b)
+        buf.len() < a.len() ==> pfx(buf, a),
+        buf.len() >= a.len() ==> pfx(a, buf) && buf.skip(a.len() as int).len() < b.len()
+            && pfx(buf.skip(a.len() as int), b),
+        a.len() > 0 && buf.len() > 0 ==> buf[0] == a[0]
 {
+    reveal(pfx);
     if buf.len() < a.len() {
         assert(buf =~= a.subrange(0, buf.len() as int)) by {
             assert forall|i: int| 0 <= i < buf.len() implies buf[i] == a[i] by { assert((a + b)[i] == a[i]); }
@@ -345,5 +392,25 @@ pub broadcast proof fn lemma_strict_prefix_concat(a: Seq<u8>, b: Seq<u8>, buf: S
             assert forall|i: int| 0 <= i < t.len() implies t[i] == b[i] by { assert((a + b)[a.len() + i] == b[i]); }
         }
     }
+    if a.len() > 0 && buf.len() > 0 { assert((a + b)[0] == a[0]); }
 }
+
+pub broadcast proof fn lemma_pfx_len(a: Seq<u8>, b: Seq<u8>)
+    requires #[trigger] pfx(a, b)
+    ensures a.len() <= b.len()
+{ reveal(pfx); }
+
+pub proof fn lemma_pfx_subrange(a: Seq<u8>, b: Seq<u8>)
+    requires pfx(a, b)
+    ensures a.len() <= b.len(), a == b.subrange(0, a.len() as int)
+{ reveal(pfx); assert(a =~= b.subrange(0, a.len() as int)); }
+
+pub proof fn lemma_pfx_intro(a: Seq<u8>, b: Seq<u8>)
+    requires a.len() <= b.len(), a =~= b.subrange(0, a.len() as int)
+    ensures pfx(a, b)
+{ reveal(pfx); }
+
+pub broadcast proof fn lemma_pfx_empty(b: Seq<u8>)
+    ensures #[trigger] pfx(Seq::<u8>::empty(), b)
+{ reveal(pfx); }
 } // mod compact_encoding
